@@ -346,6 +346,10 @@ func (r *Runner) resolveCallExpression(ctx context.Context, expr *CallExpression
 			callArgs = append(callArgs, reflect.ValueOf(convd))
 		}
 	}
+	// the function must be declared as func(...) (value, error)
+	if funType.NumOut() != 2 || !funType.Out(1).Implements(reflect.TypeOf((*error)(nil)).Elem()) {
+		return nil, fmt.Errorf("call function '%s' error: must return (value, error)", name)
+	}
 	// 调用函数
 	results := reflect.ValueOf(fun).Call(callArgs)
 	if len(results) != 2 {
